@@ -23,6 +23,10 @@ fn build_logp(case: &J) -> TestLogp {
         prec = vec![1.0; dim];
     }
     let mut l = TestLogp::gaussian(prec, vec![0.0; dim]);
+    let dp = jvf(case, "dense_prec");
+    if dp.len() == dim * dim && dim > 0 {
+        l.dense_prec = Some(dp);
+    }
     if let Some(rf) = case.get("region_fault").and_then(|x| x.as_array()) {
         let thr = rf[0].as_f64().unwrap();
         let f = Fault::parse(rf[1].as_str().unwrap()).unwrap();
